@@ -1465,6 +1465,7 @@ def check_enumeration(ctx, o, h):
     v = rets[0].value
     vx = ex.expand(v)
     call = None
+    acc_param = None
     m = match("list($c)", vx) or match("[$x for $x in $c]", vx)
     if m is not None and isinstance(m['c'], ast.Call):
         call = m['c']
@@ -1487,6 +1488,17 @@ def check_enumeration(ctx, o, h):
                 node = walker.self_name
     elif isinstance(v, ast.Name) or isinstance(vx, ast.Name):
         walker, node = h, s
+        # `acc = []; self.__collect(acc); return acc`: the walk fills an accumulator it is handed
+        accn = v.id if isinstance(v, ast.Name) else None
+        if accn is not None and not any(isinstance(x, (ast.For, ast.While)) for x in walk_no_nested(h.node)):
+            for st in h.body:
+                c = st.value if isinstance(st, ast.Expr) and isinstance(st.value, ast.Call) else None
+                if c is None or not isinstance(c.func, ast.Attribute) or not (isinstance(c.func.value, ast.Name) and c.func.value.id == s):
+                    continue
+                if len(c.args) == 1 and isinstance(c.args[0], ast.Name) and c.args[0].id == accn:
+                    m_ = prog.find_method('Task', unmangle(c.func.attr))
+                    if m_ is not None and m_.self_name and len(m_.params) == 2:
+                        walker, node, acc_param = m_, m_.self_name, [x for x in m_.params if x != m_.self_name][0]
     if walker is None or node is None:
         o.undecided(h, h.node, 'all_children', f"all_children returns `{src(vx)[:60]}`: a traversal the rule cannot locate")
         return
@@ -1532,6 +1544,10 @@ def check_enumeration(ctx, o, h):
                 what = 'emit'
             elif isinstance(e, ast.YieldFrom) and rec_on(e.value, ch):
                 what = 'rec'
+            elif acc_param is not None and isinstance(e, ast.Call) and isinstance(e.func, ast.Attribute) and len(e.args) == 1 and \
+                    unmangle(e.func.attr) in names and isinstance(e.func.value, ast.Name) and e.func.value.id == ch and \
+                    isinstance(e.args[0], ast.Name) and e.args[0].id == acc_param:
+                what = 'rec'                 # ch.__collect(acc): the same accumulator is handed down
             elif isinstance(e, ast.Call) and isinstance(e.func, ast.Attribute) and len(e.args) == 1:
                 if e.func.attr == 'append' and isinstance(e.args[0], ast.Name) and e.args[0].id == ch:
                     what = 'emit'
